@@ -826,7 +826,7 @@ def mc_run(workdir, name, fs, stack, window, emit, invs=DESIGN_INVS, progress=Tr
     cfg = MC_CFG % dict(invs=invs + (" CoverAll" if emit else ""), props="PROPERTY Progress" if progress else "",
                         view="" if r1 else "VIEW View", maxfrags=r1_frags if r1 else 1000,
                         spec=80 if r1 else 8, tsc=40 if r1 else 4,
-                        fs=fs, stack=stack, window=9 if r1 else window, calls=calls, emit="TRUE" if emit else "FALSE")
+                        fs=fs, stack=stack, window=9 if r1 else window, calls=calls, emit=str(int(emit)))
     rc, out, wall = common.tlc("MC_SasLexer", cfg, workdir, name, workers=workers, timeout=timeout, heap="16g")
     if "Model checking completed. No error has been found." not in out:
         m = re.search(r"(Invariant \w+ is violated|Temporal properties were violated|Error: .*)", out)
@@ -858,6 +858,9 @@ def build_cover(small=False, log_fn=log):
         if small:
             stack, window = min(stack, 7), 2
         st, inputs = mc_run(COVER_DIR, "cover-" + fs, fs, stack, window, True, invs="NoFault", progress=False, calls=calls)
+        if fs == "open":   # few configurations in open code: also (configuration, next two fragments)
+            st, more = mc_run(COVER_DIR, "cover-" + fs, fs, stack, window, 2, invs="NoFault", progress=False, calls=calls)
+            inputs += more
         with open(os.path.join(COVER_DIR, fs + ".ndjson"), "w", encoding="utf-8") as f:
             for s_ in gen.dedup(inputs):
                 f.write(json.dumps(s_, ensure_ascii=False) + "\n")
@@ -918,7 +921,7 @@ def opencode_mc(ctx):
     (OpenCode.tla) on every macro-free input of at most N fragments of the open-code set (regime R1, full history)
     and, in the thorough tier, on the R2 representatives as well."""
     runs = []
-    n = 3 if ctx.quick() else 4
+    n = 4
     st, _ = mc_run(ctx.dir, "oc-r1", "open", 40, 9, False, calls=9, r1_frags=n, invs="OpenCodeEq NoFault", progress=False)
     runs.append(st)
     if not ctx.quick():
@@ -956,7 +959,7 @@ def seppair_mc(ctx):
     for fs, stack, calls, window in sets:
         cfg = (MC_CFG % dict(invs="SameConfiguration SepErase SepPlacement SepPlacementStrict NoFault", props="",
                              view="VIEW PView", maxfrags=1000, spec=8, tsc=4, fs=fs, stack=stack, window=window, calls=calls,
-                             emit="FALSE")).replace("SPECIFICATION Spec", "SPECIFICATION PSpec")
+                             emit="0")).replace("SPECIFICATION Spec", "SPECIFICATION PSpec")
         rc, out, wall = common.tlc("MC_SepPair", cfg, ctx.dir, "mc-seppair-" + fs, workers=16, timeout=3600, heap="16g")
         if "Model checking completed. No error has been found." not in out:
             raise ToolError("MC_SepPair failed:\n" + out[-1500:])
@@ -977,7 +980,7 @@ def compose_mc(ctx):
     runs = []
     for fs, stack, calls, window in sets:
         cfg = (MC_CFG % dict(invs="Compose NoFault", props="", view="VIEW CView", maxfrags=1000, spec=8, tsc=4, fs=fs,
-                             stack=stack, window=window, calls=calls, emit="FALSE")).replace("SPECIFICATION Spec", "SPECIFICATION CSpec")
+                             stack=stack, window=window, calls=calls, emit="0")).replace("SPECIFICATION Spec", "SPECIFICATION CSpec")
         rc, out, wall = common.tlc("MC_Compose", cfg, ctx.dir, "mc-compose-" + fs, workers=16, timeout=3600, heap="16g")
         if "Model checking completed. No error has been found." not in out:
             raise ToolError("MC_Compose failed:\n" + out[-1500:])
@@ -996,7 +999,7 @@ def twin_mc(ctx, twin):
     runs = []
     for fs, stack, calls, window in sets:
         cfg = (MC_CFG % dict(invs="TwinSame NoFault", props="", view="VIEW View", maxfrags=1000, spec=8, tsc=4, fs=fs,
-                             stack=stack, window=window, calls=calls, emit="FALSE")
+                             stack=stack, window=window, calls=calls, emit="0")
                ).replace("SPECIFICATION Spec", "SPECIFICATION TSpec").replace("CONSTANTS\n", "CONSTANTS\n  Twin = \"%s\"\n" % twin)
         rc, out, wall = common.tlc("MC_Twin", cfg, ctx.dir, "mc-twin-" + fs, workers=16, timeout=3600, heap="16g")
         if "Model checking completed. No error has been found." not in out:
